@@ -451,7 +451,12 @@ func (f *BigFloat) Inspect() string {
 	if f.IsInf(-1) {
 		return fmt.Sprintf("%s::NEG_INF", f.Class().PrintableName())
 	}
-	return fmt.Sprintf("%sbf", f.AsGoBigFloat().Text('g', -1))
+	text := f.AsGoBigFloat().Text('g', -1)
+	if text == "0" || text == "-0" {
+		// `0bf` would be lexed as the binary prefix `0b` followed by `f`
+		text += ".0"
+	}
+	return fmt.Sprintf("%sbf", text)
 }
 
 func (f *BigFloat) ToString() String {
